@@ -97,11 +97,15 @@ def run(ctx):
         for j in range(6):
             reached = j < 3 and len(m.W) > 0
             w = np.array(m.W[r.randrange(len(m.W))], dtype=float) if reached else arbitrary_weight(r, cls, d, m)
-            style = r.choice(["data", "fresh", "centre"])
+            style = r.choice(["data", "fresh", "centre", "near-centre"] if cls == "HypersphereART" else ["data", "fresh", "centre"])
             if style == "data":
                 x = X[r.randrange(len(X))].copy()
             elif style == "fresh":
                 x = specs.elem_data(r, cls, 1, d)[0]
+            elif style == "near-centre":
+                # closer than 1e-7 to the centre, but not on it (near-duplicate readings)
+                x = np.clip(w[:-1] + np.array([r.choice([-1, 1]) * 2.0 ** -r.choice([24, 26, 30]) for _ in range(d)]), 0.0, 1.0)
+                cov.hit("sample-within-1e-7-of-centre")
             else:
                 # sample on the category centre / boundary
                 if cls == "FuzzyART":
@@ -231,7 +235,15 @@ def run(ctx):
             ok = len(f) == len(v) and all(a == b or abs(a - b) <= 1e-12 * (1 + abs(b)) for a, b in zip(v, f))
         if not ok:
             fn = line.split(" ")[2]
-            ctx.issue("diff", f"kern:{fn}", f"implementation {val!r} model {out}", rep)
+            if out in ("bad-op", "zerodiv") or kind == "zerodiv":
+                ctx.issue("diff", f"kern:{fn}", f"implementation {val!r} model {out}", rep)
+            else:
+                # the model's kernels ARE the published equations (ArtModel/Kernels.lean; for the translated classes
+                # GenSpec proves the source equal to them): evaluated on this very input they give another value
+                ctx.issue("violation", f"{cls}.{fn}:differs-from-published-equation",
+                          f"on x = {np.asarray(rep.get('x')).tolist() if rep.get('x') is not None else '-'}, w = "
+                          f"{np.asarray(rep.get('w')).tolist() if rep.get('w') is not None else '-'} the implementation returns {val!r}; "
+                          f"the published rule evaluated exactly gives {out}", rep)
         else:
             cov.hit("kern-agree")
         cov.traces += 1
